@@ -27,7 +27,10 @@ Bool(b) == [k |-> "bool", b |-> b]
 \* like 1e999 ("huge", which becomes +infinity).  They are numbers by kind and members of no value set.
 Special(s) == [k |-> "special", s |-> s]
 Specials == {Special("nan"), Special("pinf"), Special("ninf"), Special("huge")}
-Null    == [k |-> "null"]
+Null    == [k |-> "null"]                 \* no payload on the request line
+JNull   == [k |-> "jnull"]                \* the JSON token null as payload: the same as none
+FZero   == [k |-> "fzero"]                \* the JSON number 0.0 (only offered where no number is expected)
+IsNull(p) == p.k \in {"null", "jnull"}
 List(xs) == [k |-> "list", xs |-> xs]
 Obj(kv) == [k |-> "obj", kv |-> kv]        \* kv: sequence of [key |-> name, val |-> payload]
 KV(key, val) == [key |-> key, val |-> val]
@@ -305,10 +308,10 @@ DoRes(c, req) ==
   IF ~tg.ok THEN Res(Refused(req, tg.cls), c)
   ELSE LET a == tg.v
            acc == shape[req.mod][a]
-       IN IF acc.arg = NoDt
-          THEN IF req.payload # Null THEN Res(Refused(req, WT), c)
+       IN IF acc.arg = NoDt     \* datainfo {"type": "command"}: only "no payload" is valid - not 0, 0.0, false, "", [], {}
+          THEN IF ~IsNull(req.payload) THEN Res(Refused(req, WT), c)
                ELSE Res(Outcome(req, Ok(acc.ret), <<Call("cmd", a, Null)>>, Null, Null), c)
-          ELSE IF req.payload = Null THEN Res(Refused(req, WT), c)
+          ELSE IF IsNull(req.payload) THEN Res(Refused(req, WT), c)
                ELSE LET r == Validate(acc.arg, req.payload, Null) IN
                     IF ~r.ok THEN Res(Refused(req, r.cls), c)
                     ELSE Res(Outcome(req, Ok(acc.ret), <<Call("cmd", a, r.v)>>, Null, Null), c)
@@ -407,7 +410,7 @@ DriverOnlyIfAllowed ==
                      /\ Denotes(acc.dt, req.payload, cache[req.mod][a], last'.calls[1].arg)
                      /\ HooksAccept(acc, last'.calls[1].arg, Limits(cache, req.mod, acc))
                 ELSE /\ acc.kind = "cmd"
-                     /\ IF acc.arg = NoDt THEN req.payload = Null /\ last'.calls[1].arg = Null
+                     /\ IF acc.arg = NoDt THEN IsNull(req.payload) /\ last'.calls[1].arg = Null
                         ELSE /\ InDatainfo(acc.arg, last'.calls[1].arg)
                              /\ Denotes(acc.arg, req.payload, Null, last'.calls[1].arg)
     ]_vars
@@ -512,12 +515,12 @@ Cat(dt) ==
                            Num(1), List(<<Num(2), Num(9)>>), List(<<Num(3), Num(3)>>),
                            List(<<Num(2), Special("nan")>>), List(<<Special("ninf"), Num(5)>>), List(<<Special("nan"), Special("nan")>>)}
     [] dt.t = "enum" -> {Num(1), Num(2), Num(3), SName("a"), SName("c"), SName("zz"), Null, List(<<Num(1)>>)}
-    [] dt.t = "string" -> {SAb, SXyz, SLong, SUni, Num(1), Null, List(<<SAb>>)}
+    [] dt.t = "string" -> {SAb, SXyz, SLong, SUni, SB(0), Num(1), Null, List(<<SAb>>)}      \* SB(0): the empty string
     [] dt.t = "struct" -> {St(Num(3), Num(2)), St(Num(5), Num(4)), StX(Num(5)), StX(Num(0)),
                            Obj(<<KV("y", Num(4))>>), Obj(<<KV("x", Num(3)), KV("z", Num(1))>>),
                            St(Num(9), Num(2)), StX(SAb), St(Num(3), Frac(2)),
                            StX(Special("nan")), St(Special("pinf"), Num(2)), St(Num(3), Special("nan")),
-                           Num(1), List(<<Num(1), Num(2)>>), SAb, Null}
+                           Num(1), List(<<Num(1), Num(2)>>), SAb, Null, Obj(<<>>)}      \* {}: valid iff every member is optional
     [] dt.t = "array" -> {List(<<>>), List(<<Num(1)>>), List(<<Num(1), Num(2)>>), List(<<Num(2), Num(3), Num(4)>>),
                           List(<<Num(1), Num(2), Num(3), Num(4)>>), List(<<Num(9)>>), List(<<SAb>>),
                           List(<<Special("nan")>>), List(<<Num(1), Special("ninf")>>),
@@ -529,6 +532,10 @@ Short(dt) == \* two payloads for accessibles where the payload should not matter
     [] dt.t = "bool" -> {Bool(TRUE), SAb} [] dt.t = "blob" -> {SB(2), Num(1)} [] dt.t = "limits" -> {List(<<Num(2), Num(5)>>)}
     [] dt.t = "string" -> {SAb, Num(1)} [] dt.t = "struct" -> {St(Num(3), Num(2)), Num(1)}
     [] dt.t = "array" -> {List(<<Num(1)>>), Num(1)} [] dt.t = "tuple" -> {List(<<Num(2), Num(5)>>)}
+\* what may be offered to a command WITHOUT argument: nothing / null (valid) and the falsy and truthy JSON values
+NoArgCat == {Null, JNull, Num(0), FZero, Bool(FALSE), SB(0), List(<<>>), Obj(<<>>),
+             Num(1), SAb, List(<<Num(1)>>), Obj(<<KV("a", Num(1))>>)}
+DTso == [t |-> "struct", mem |-> <<[name |-> "x", dt |-> DTf], [name |-> "y", dt |-> DTi]>>, opt |-> <<"x", "y">>]
 LimCat == {Num(2), Num(5), Num(9), SAb, Special("nan"), Special("pinf"), Special("ninf")}
 
 InitOf(dt) == CASE dt.t \in {"double", "int", "scaled"} -> Num(3) [] dt.t = "enum" -> Num(1) [] dt.t = "string" -> SAb
@@ -612,7 +619,8 @@ ShapeE(n) ==
                value |-> [Par("value", DTi, TRUE, Null, NoLim, <<>>, "none") EXCEPT !.rd = "fixed"],
                pa |-> [Par("_pa", DTe, FALSE, Null, NoLim, <<>>, "none") EXCEPT !.rd = "fixed"],
                ct |-> Cmd("_ct", [t |-> "tuple", els |-> <<DTf, DTe>>], Null),
-               cb |-> Cmd("_cb", DTb, Num(3))]]
+               cb |-> Cmd("_cb", DTb, Num(3)),
+               co |-> Cmd("_co", DTso, Null)]]        \* every member optional: {} is a valid argument
   ELSE IF n = 2
   THEN [m |-> [target |-> Par("target", DTf5, FALSE, Null, [kind |-> "minmax", lo |-> "", hi |-> "target_max"], <<[at |-> "LIMIT"]>>, "none")
                            @@ [cls |-> [hi |-> 8], via |-> "cfg"],
@@ -722,7 +730,7 @@ AccReqs(sh, m, a) ==
                 THEN {Req("change", m, acc.cls.wire, CHOOSE p \in Short(acc.dt) : TRUE), Req("read", m, acc.cls.wire, Null)} ELSE {})
           \cup (IF acc.wire # a /\ acc.wire # ""
                 THEN {Req("change", m, a, CHOOSE p \in Short(acc.dt) : TRUE), Req("read", m, a, Null)} ELSE {})
-     ELSE {Req("do", m, nm, p) : p \in (IF acc.arg = NoDt THEN {Null, Num(1)} ELSE Cat(acc.arg))}
+     ELSE {Req("do", m, nm, p) : p \in (IF acc.arg = NoDt THEN NoArgCat ELSE Cat(acc.arg) \cup {JNull})}
           \cup {Req("change", m, nm, Num(1)), Req("read", m, nm, Null)}
           \cup (IF acc.wire # a /\ acc.wire # "" THEN {Req("do", m, a, Null)} ELSE {})
 ReqsOf(sh) ==
